@@ -177,5 +177,10 @@ let run_op (op : string) (args : string list) : string =
   | "dynde", [ sch; bs ] ->
     string_of_dres string_of_dyn_de_error string_of_json
       (from_slice_dyn host_widen (schema_of_sexp (parse_sexp sch)) (bytes_of_hex bs))
+  | "jsonof", [ nv ] -> string_of_json (json_of host_widen (nvalue_of_sexp (parse_sexp nv)))
+  | "inscope", [ sch; nv ] ->
+    let s = schema_of_sexp (parse_sexp sch) in
+    let v = nvalue_of_sexp (parse_sexp nv) in
+    (if in_scope s then "1" else "0") ^ (if unamb v then "1" else "0")
   | _ -> failwith ("unknown op " ^ op)
 
